@@ -19,11 +19,11 @@ ASSUMPTIONS = [
     "within one formula the object is reused across assignments (purity is C09's subject)",
 ]
 BOUNDS = {
-    "quick": "conn1/abcd a3 (generated+explicit), conn2/abc (generated, explicit, root), conn1s/abc, closure/ab generated, all cicJE rules over <=2+2 components",
+    "quick": "conn1/abcd a3 (generated+explicit), conn2/abc (generated, explicit, root), conn1s/abc, closure/ab generated, 3-argument mixed formulas conn3/abc and their closure, all cicJE rules over <=2+2 components",
     "thorough": "quick + conn2/abcd, conn2s/abc, closure/abc, conn2/abc a3",
 }
 QUICK = ["conn1/abcd/generated/a3", "conn1/abcd/explicit/a3", "conn2/abc/generated", "conn2/abc/explicit", "conn2/abc/root",
-         "conn1s/abc/generated/a3", "closure/ab/generated", "cicje"]
+         "conn1s/abc/generated/a3", "closure/ab/generated", "conn3/abc/generated", "closure3/abc/generated", "cicje"]
 THOROUGH = QUICK + ["conn2/abcd/generated", "conn2s/abc/generated", "closure/abc/generated", "closure/ab/root", "conn2/abc/generated/a3"]
 
 
